@@ -45,6 +45,13 @@ def tweak(rng, row, w, case):
         v = f.get(fld)
         if isinstance(v, int) and v <= 14:
             st[gen.bank_key(v, mode)] = val & M32
+    if nm.startswith(('SMLAD', 'SMUAD', 'SMLSD', 'SMUSD', 'SMLALD', 'SMLSLD', 'SMLA', 'SMUL', 'SMLAW', 'SMULW', 'QD', 'QADD', 'QSUB')) and rng.random() < 0.2:
+        # extreme products: (-2^15)^2 twice sums to +2^31, which does not fit the signed 32-bit intermediate
+        setr('n', rng.choice((0x80008000, 0x80008000, 0x8000, 0x80000000, 0x7FFF8000, 0x80007FFF)))
+        setr('m', rng.choice((0x80008000, 0x80008000, 0x8000, 0x80000000, 0x7FFF8000, 0x80007FFF)))
+        if f.get('a') not in (f.get('n'), f.get('m')):
+            setr('a', rng.choice((0, 1, 0x7FFFFFFF, 0x80000000, 0xFFFFFFFF, 0xFFFFFFFE, rng.getrandbits(32))))
+        return
     if rng.random() < 0.25 and getr('n') is not None and getr('m') is not None:
         # accumulators chosen so that the exact result is 0 modulo 2^32 / 2^64 (Z from the truncated result, wrap of the accumulate)
         n_, m_ = getr('n'), getr('m')
